@@ -11,6 +11,8 @@ skip_suite = "--skip-suite" in sys.argv or "--demo-only" in sys.argv
 if "--props" in sys.argv:
     props = sys.argv[sys.argv.index("--props") + 1].split(",")
 src = "/tmp/mut/out-%s/%s" % (pid, n)
+if "--src" in sys.argv:  # round 2: deliveries of a later wave, numbered on in /verif/seeded
+    src = sys.argv[sys.argv.index("--src") + 1]
 dst = "/verif/seeded/%s-%s" % (pid, n)
 wt = "/root/scratch/seed/%s-%s" % (pid, n)
 env = dict(os.environ, GOFLAGS="-mod=mod", GOPROXY="off")
